@@ -104,7 +104,7 @@ def evaluate(res, ctx, name, ops, recs, err, rc, check_model=True, pid="C03", cl
         res.violation("%s: crash run died (rc=%s): %s" % (name, rc, err[-300:]), {"ops": ops, "stderr": err[-2000:]})
         return 0
     for r in oprecs:
-        if r["res"].startswith(("panic", "err:", "bad:", "dead")) and not r["op"].startswith(("get", "bget")) and r["res"] not in ("err:mergeids", "err:committed"):
+        if r["res"].startswith(("panic", "err:", "bad:", "dead")) and not r["op"].startswith(("get", "bget")) and r["res"].split(" ")[0] not in ("err:mergeids", "err:committed"):
             if r["op"].split()[0] in ("put", "get", "del", "bput", "bget", "bdel") and r["op"].split()[1] == "-":
                 continue
             res.violation("%s: workload op failed: %s -> %s" % (name, r["op"], r["res"]), {"ops": ops[:r["i"] + 1]})
